@@ -1,16 +1,61 @@
 ID = 'C15'
+TECHNIQUE = ('bounded symbolic model checking (CBMC/SAT) of C translated from the LLVM IR of the real Subprocess::communicate / run_process code against a '
+             'nondeterministic OS model written in the harness; the child\'s schedule (event positions, transfer amounts) is case-split into concrete cells, '
+             'payload bytes, wait status and clock values are solver variables in every cell')
 FS512 = ['--max-field-sensitivity-array-size', '512']
 CUTS = [r'^_ZN5phosg8io_errorC1Ei$', r'^_ZN5phosg16string_for_errorB5cxx11Ei$']
-SUBST = {'Process.cc': [(r'read\(this->stdout_read_fd, 4096\)', 'read(this->stdout_read_fd, VERIF_COMM_BLOCK)', 1)]}
+SUBST = {'Process.cc': [(r'read\(this->stdout_read_fd, 4096\)', 'read(this->stdout_read_fd, VERIF_COMM_BLOCK)', 1),
+                        (r'READ_BLOCK_SIZE = 128 \* 1024;', 'READ_BLOCK_SIZE = VERIF_RUN_BLOCK;', 1)]}
 UNITS = {
-    'proc': dict(wrap='wrap.cc', shim=True, new_block=64, cuts=CUTS + ['basic_stringIcSt11char_traitsIcESaIcEE9_M_createERmm$'],
-                 cxxflags=['-DVERIF_COMM_BLOCK=4', '-DVERIF_DEQUE_CAP=4', '-fno-inline'], src_subst=SUBST,
+    'proc': dict(wrap='wrap.cc', shim=True, new_block=64, per_harness={'h_run.c': {'new_block': 128}}, cuts=CUTS + ['basic_stringIcSt11char_traitsIcESaIcEE9_M_createERmm$'],
+                 cxxflags=['-DVERIF_COMM_BLOCK=4', '-DVERIF_RUN_BLOCK=4', '-DVERIF_DEQUE_CAP=4', '-DVERIF_UMAP_CAP=3', '-DVERIF_UMAP_REVERSE_ITER', '-fno-inline'], src_subst=SUBST,
                  ir2c_flags=['--ptrdiff', '--flat-unions', '--zero-allocas'], gen_defs=['VERIF_NEW_POOL=16', 'VERIF_NEW_POOL_LIFO'], extra_c=['sso_bound.c']),
 }
-BOUNDS = ''
-STUBS = []
-OUTSIDE = []
-ASSUMPTIONS = []
+BOUNDS = ('One query = one CELL: concrete child script (sequence of events: write k bytes to stdout / stderr, close stdout, read stdin, read stdin to EOF, close '
+          'stdin, exit), concrete position of every event on the axis of the parent\'s OS calls, concrete amount for every read()/write() that could move more '
+          'than one byte, (deadline cells) concrete index FL of the first clock read that sees the deadline passed. SYMBOLIC inside a cell: every stdout / stderr / '
+          'payload byte, the wait status (any exit code 0..255 or death by signal 1..126 with/without core), every clock value after the first. '
+          'Subprocess::communicate: W = 0..3 stdout bytes in every chunking (scripts x, 1x, 2x, 11x, 3x, 12x, 21x, 111x) plus close-stdout scripts cx, 1cx; stdin payload 0, 1, 2 bytes '
+          '(scripts x, kx, ex, rx, e1x, 1ex, r1x with 1 byte; ex, rx, rex, rrx, rkx, e1x with 2 bytes, pipe capacity 1 or 2); deadline 2 ms (scripts x, 1x, 2x, ex+1 byte payload); '
+          'blocking-descriptor cells: 3-byte payload, both pipes 1 byte, script r11ex, and 2-byte payload script e1x. '
+          'cells.json lists for every script ALL positions (an event marked LATE stands for "this OS call or any later": the query proves that the parent forces the event by then, '
+          'so later positions are the same run) and the complete tree of read/write amounts (completeness of the tree is checked when spec.py is loaded; the limits are asserted in the queries). '
+          'QUICK runs the complete lists of x, 1x, 2x (no payload), x+payload, and the deadline script x (every 2nd cell) and every n-th cell of the other lists (TIERS in spec.py); '
+          'THOROUGH runs the complete lists of x, 1x, 2x, 11x, 3x, cx, the 1-byte-payload scripts x/kx/ex/rx, ex with 2 bytes (capacity 1), deadline x, and every n-th cell '
+          '(n = 2..20, see TIERS) of 12x, 21x, 111x, 1cx and the remaining payload / deadline lists. '
+          'run_process (h_run.c): stdout + stderr <= 2 bytes (scripts x, 1x, Ax, 2x, Bx, 11x, 1Ax, A1x, AAx), payload 1 byte (x, kx, ex, e1x) or 2 bytes (ex, capacity 1 and 2), every event '
+          '0..3 OS calls after the previous one (0..2 for the scripts with a payload > 1 byte or AAx), `check` on/off with status 0 / symbolic non-zero on the 1x cells; no timeout. '
+          'Read block 4 bytes in communicate (source: 4096) and in run_process (source: 128 KiB), both replaced by src_subst; every std::string <= 15 bytes; deque shim capacity 4, '
+          'unordered_map shim capacity 3, std::set shim capacity 4.')
+STUBS = ['OS model in h_comm.c (communicate): waitpid (WNOHANG: 0 until the child exited, then the pid once; blocking: runs the child to its exit or reports deadlock), poll (POLLIN/POLLHUP/'
+         'POLLOUT/POLLERR exactly for the pipe state; timeout -1 blocks until the fair child\'s next steps make something ready - nothing can: "deadlock" assertion; timeout 0 returns at once; '
+         'timeout > 0 with nothing ready lets the whole timeout elapse), read (concrete amount 1..min(requested, available), 0 at EOF, never on an empty pipe with a live writer), write '
+         '(concrete amount 1..min(n, room), EPIPE when the reader is gone, EAGAIN when full and O_NONBLOCK; WBLOCK cells: POSIX blocking write = returns when all n bytes are in, sleeps '
+         'while full, deadlock assertion when the child cannot make room), fcntl (F_GETFL/F_SETFL on the stdin end), kill (SIGKILL ends the child, ESRCH after reaping, allowed only '
+         'after the deadline was seen), close (each pipe end at most once), gettimeofday (deadline cells: first value fixed, later values symbolic, non-decreasing, at least 1 ms before the '
+         'deadline until read number FL, at or past it from then on; at most 10 ms past)',
+         'OS model in h_run.c (run_process): pipe (descriptors 3..8), fork (parent side only), fcntl, waitpid(WNOHANG), poll with 1 s timeout, non-blocking read/write (EAGAIN / EPIPE), close '
+         '(only pipe descriptors, each once), gettimeofday (symbolic, feeds elapsed_time only), kill (never without a timeout)',
+         'vasprintf -> constant text; io_error(int) constructor and string_for_error() cut to message-free models (exception TEXT is outside the claim)',
+         'std::string::_M_create cut to a reported bound failure (sso_bound.c): strings longer than 15 bytes are outside the encoding; operator new/delete: deterministic pool allocator with '
+         'stack-order reuse (engine/rt/rt_model.c VERIF_NEW_POOL + VERIF_NEW_POOL_LIFO): no use-after-delete detection in CBMC (ASan checks the native runs)',
+         'engine/shim unordered_map (capacity 3, iteration newest-first = the order libstdc++ gives for <= 3 int keys) and deque (capacity 4); props/C15/shim_set.hh for std::set (solver build only)']
+OUTSIDE = ['signals delivered to the PARENT: a write to a pipe whose reader is gone raises SIGPIPE, which terminates the calling process unless the application ignores it; the model returns '
+           'EPIPE only. run_process / communicate do not protect against SIGPIPE (confirmed with a real child: exit status 141 of the parent); not repaired by commit 8fd4a36',
+           'run_process with timeout_usecs != 0 (SIGTERM / SIGKILL escalation): not encoded',
+           'real pipe capacity (64 KiB), payloads beyond 3 bytes / outputs beyond 3 bytes, read blocks other than 4: block-boundary logic is decided for the substituted constants only',
+           'timing resolution below 1 ms around the deadline (communicate polls with timeout 0 in a busy loop during the last millisecond: unbounded in any model); deadlines other than 2 ms',
+           'EINTR from poll / waitpid / read / write, poll failures, fork / pipe failures, the child side of fork (dup2 / exec), cwd / env arguments',
+           'busy waiting: run_process spins (poll returns at once) while a pipe end reports only POLLHUP / POLLERR and the child is still running - a performance matter, not asserted',
+           '~Subprocess does not close the descriptors of a Subprocess built with pipes that was not used through run_process (observation, the property text only speaks about run_process)',
+           'deadline cells: the combinations of FL and read amounts are those the native exploration found consistent; they are decided by the solver one by one but their list is not proven complete',
+           'cells not listed in cells.json / runcells.json: positions later than TMAX (covered only through LATE cells), run_process delays > 3 OS calls between events']
+ASSUMPTIONS = ['the OS model is an over-approximation of scheduling written from POSIX / Linux pipe semantics; it is not the kernel',
+               'communicate and run_process are uniform in their read block size (4096 / 131072 -> 4 by src_subst, both builds)',
+               'a Subprocess assembled from the default constructor + fields (h_comm.c) behaves like one made by the forking constructor in the parent; h_run.c runs the real constructor',
+               'ir2c --zero-allocas and the pool allocator: behaviour that depends on reading UNINITIALISED stack or operator-new memory is not explored (the model shows zeros / stale bytes)',
+               'libstdc++ iterates an unordered_map<int,...> with <= 3 keys newest-first (the shim does the same); translation validation compares the OS call order of both builds on every tv query',
+               'cbmc --max-field-sensitivity-array-size 512 (performance only)']
 
 LB = '_ZSt13__lower_boundIN9__gnu_cxx17__normal_iteratorIP6pollfdSt6vectorIS2_SaIS2_EEEES2_NS0_5__ops14_Iter_comp_valIZN5phosg4Poll'
 COMM = '_ZN5phosg10Subprocess11communicateB5cxx11EPKvmm'
@@ -20,35 +65,141 @@ UM = '_ZNSt13unordered_mapIisvvvE'
 
 def comm_unwindset(w, in_n, tmax, main_iters):
     nf = 2 if in_n else 1
-    d = {'harness.0': 7, 'harness.1': tmax + 3, 'harness.2': 7, 'harness.3': 7, 'harness.4': 7,
-         'harness.5': tmax + 3, 'harness.6': tmax + 3, 'harness.7': tmax + 3, 'harness.8': tmax + 3, 'harness.9': tmax + 3,
-         'in_bytes.0': 5, 'model_reset.0': in_n + 2, 'child_run.0': 7, 'child_run.1': 7, 'poll_scan.0': 4, 'X_poll.0': 8, 'X_read.0': 5, 'X_write.0': in_n + 2,
-         'X_waitpid.0': 7, 'run_case.0': in_n + 2, 'run_case.1': 7, 'run_case.2': 5,
+    d = {'draw_clock.0': 14,
          DQ + 'D2Ev.0': 6, DQ + 'C2Ev.0': 6, LB + '3addEisE3__0EEET_SE_SE_RKT0_T1__c653dc.0': 3, LB + '6removeEibE3__1EEET_SE_SE_RKT0_T1__b9d0c1.0': 3,
          COMM + '.0': main_iters, COMM + '.1': w + 3, COMM + '.2': w + 2,
          '_ZNKSt13unordered_mapIisvvvE4findERKi.0': 5, UM + '7emplaceIJRKiEJRKsEEESt4pairINS0_8iteratorEbESt21piecewise_construct_tSt5tupleIJDpT_EESA_IJDpT0_EE.0': 5,
          UM + '5clearEv.0': 5, UM + 'C2Ev.0': 5, UM + 'C2EOS0_.0': 5,
-         'verif_memset_loop.0': 6, 'verif_memcpy_loop.0': 6, '_ZN5phosg10Subprocess4waitEb.0': 2, '_ZN5phosg4Poll4pollEi.0': nf + 1,
-         'verif_memmove_loop.0': 8 * (nf - 1) + 2, 'verif_memmove_loop.1': 8 * (nf - 1) + 2, 'strlen.0': 2}
+         'verif_memset_loop.0': 6, 'verif_memcpy_loop.0': 20, '_ZN5phosg10Subprocess4waitEb.0': 2, '_ZN5phosg4Poll4pollEi.0': nf + 1,
+         'verif_memmove_loop.0': 8 * (nf - 1) + 2, 'verif_memmove_loop.1': 8 * (nf - 1) + 2, 'strlen.0': 20}
     return ','.join('%s:%d' % kv for kv in d.items())
 
 
-def Q(name, evs, sched, in_n=0, timeout_us=0, cap=None, mem_gb=4, to=600, **kw):
+def Q(name, evs, sched, late, tmax, plan=('', '', ''), lims=('', '', ''), in_n=0, timeout_us=0, fl=99, cap=None, mem_gb=3, to=600, tv=False, ocap=None, wblock=0, **kw):
     w = sum(int(c) for c in evs if c.isdigit())
-    tmax = 3 * (w + len(evs) + in_n) + 4 + (10 if timeout_us else 0)
-    defs = {'EVS': '"%s"' % evs, 'SCHED': '"%s"' % sched, 'IN_N': in_n, 'TIMEOUT': timeout_us, 'TMAX': tmax}
+    defs = {'EVS': '"%s"' % evs, 'SCHED': '"%s"' % sched, 'LATE': '"%s"' % late, 'IN_N': in_n, 'TIMEOUT': timeout_us, 'TMAX': tmax, 'FL': fl}
+    for k, nm in enumerate('RWC'):
+        if plan[k]:
+            defs['MV' + nm] = '"%s"' % plan[k]
+            defs['LIM' + nm] = '"%s"' % lims[k]
     if cap is not None:
         defs['CAP'] = cap
-    return dict(name=name, unit='proc', harness='h_comm.c', defs=defs, unwind=3, unwindset=comm_unwindset(w, in_n, tmax, w + len(evs) + in_n + 3), timeout=to, mem_gb=mem_gb,
-                flags=FS512, backend='cadical', object_bits=12, desc=name, bounds='', tv_runs=8, **kw)
+    if ocap is not None:
+        defs['OCAP'] = ocap
+    if wblock:
+        defs['WBLOCK'] = 1
+    return dict(name=name, unit='proc', harness='h_comm.c', defs=defs, unwind=7, unwindset=comm_unwindset(w, in_n, tmax, w + len(evs) + in_n + 3), timeout=to, mem_gb=mem_gb,
+                flags=FS512, backend='cadical', object_bits=12, tv=tv, tv_runs=20, cost=5,
+                desc='Subprocess::communicate vs OS model: child script %s (1-9 write n stdout bytes, c close stdout, r/e read stdin / to EOF, k close stdin, x exit), %s; '
+                     'all bytes, the wait status%s symbolic: returns exactly the child\'s output, child reaped once, descriptors closed at most once, stdin closed on delivery, no deadlock'
+                     % (evs, ('%d-byte stdin payload (pipe capacity %s)' % (in_n, cap if cap is not None else in_n)) if in_n else 'no stdin payload',
+                        ', the clock values' if timeout_us else '') +
+                     ('; deadline %d us: throws only after the clock passed it and the child was SIGKILLed' % timeout_us if timeout_us else '') +
+                     ('; stdin is a blocking descriptor (write returns when everything is in the pipe), stdout pipe holds %s byte(s)' % ocap if wblock else ''),
+                bounds='events at OS calls %s (LATE flags %s: 1 = that call or any later), amounts read/write/child-read %s, FL %s, <= %d OS calls' % (sched, late, '/'.join(p or '-' for p in plan), fl if timeout_us else '-', tmax), **kw)
+
+
+RUNP = '_ZN5phosg11run_processERKSt6vectorINSt7__cxx1112basic_stringIcSt11char_traitsIcESaIcEEESaIS6_EEPKS6_bSC_PKSt13unordered_mapIS6_S6_vvvEm'
+
+
+def RQ(name, evs, sched, in_n=0, has_in=None, cap=None, check=0, status0=1, plan=('', '', '', ''), lims=('', '', '', ''), kf=None, mem_gb=4, to=900, tv=False, **kw):
+    """one run_process cell (h_run.c)"""
+    w = sum(int(c) for c in evs if c.isdigit()) + sum(ord(c) - 64 for c in evs if c in 'ABC')
+    tmax = sum(B36.index(c) for c in sched) + 3 * w + 2 * len(evs) + 2 * in_n + 8
+    defs = {'EVS': '"%s"' % evs, 'SCHED': '"%s"' % sched, 'IN_N': in_n, 'HAS_IN': int(in_n > 0 if has_in is None else has_in), 'CHECK': check, 'STATUS0': status0, 'TMAX': tmax}
+    for k, nm in enumerate('REWC'):
+        if plan[k]:
+            defs['MV' + nm] = '"%s"' % plan[k]
+            defs['LIM' + nm] = '"%s"' % lims[k]
+    if cap is not None:
+        defs['CAP'] = cap
+    if kf:
+        defs[kf] = 1
+    us = {RUNP + '.0': tmax // 2 + 3, 'verif_memcpy_loop.0': 20, 'verif_memmove_loop.0': 18, 'verif_memmove_loop.1': 18, 'strlen.0': 20, '_ZN5phosg10Subprocess4waitEb.0': 2}
+    return dict(name=name, unit='proc', harness='h_run.c', defs=defs, unwind=9, unwindset=','.join('%s:%d' % kv for kv in us.items()), timeout=to, mem_gb=mem_gb,
+                flags=FS512, backend='cadical', object_bits=12, tv=tv, tv_runs=20, cost=20,
+                desc='run_process (real Subprocess constructor, poll loop, drain, check=%d) vs OS model: child script %s (1-9 stdout bytes, A-C 1-3 stderr bytes, r/e/k stdin, x exit), %s, wait status %s; '
+                     'all bytes symbolic: result strings == what the child wrote per stream, status returned, throws iff check and status != 0, child reaped once, every pipe() descriptor closed exactly once'
+                     % (check, evs, ('%d-byte stdin payload (pipe capacity %s)' % (in_n, cap if cap is not None else in_n)) if in_n else 'no stdin data', '0' if status0 else 'symbolic non-zero'),
+                bounds='each event %s OS calls after the previous one, amounts stdout/stderr/stdin/child %s, <= %d OS calls' % ('/'.join(sched), '/'.join(p or '-' for p in plan), tmax), **kw)
+
+
+import json, os
+B36 = '0123456789abcdefghijklmnopqrstuvwxyz'
+CELLS = json.load(open(os.path.join(os.path.dirname(os.path.abspath(__file__)), 'cells.json')))
+
+
+def check_plan_trees(r):
+    """the move plans listed for one schedule must form a complete tree: wherever a run had a choice point with limit L after
+    the amounts P, the list contains P+[d] for every d in 1..L (the limits are asserted by the queries themselves)"""
+    by = {}
+    for sc, late, plan, lims, fl in r['cells']:
+        by.setdefault((sc, late, fl), []).append((tuple(plan), tuple(lims)))
+    for key, pl in by.items():
+        have = set(p for p, _ in pl)
+        # completeness per kind, the other two kinds fixed: every proper prefix choice is branched completely
+        for p, l in pl:
+            for k in range(3):
+                for n in range(len(p[k])):
+                    for d in range(1, int(l[k][n]) + 1):
+                        want = p[k][:n] + str(d)
+                        if not any(q[k].startswith(want) and all(q[j] == p[j] or j == k for j in range(3)) or q[k].startswith(want) for q in have):
+                            raise Exception('cells.json: incomplete move-plan tree for %s %s: %s' % (r['evs'], key, want))
+
+
+for _r in CELLS:
+    if not _r['timeout']:  # deadline cells: combinations of FL and amounts that contradict each other are left out, the list is not a full tree
+        check_plan_trees(_r)
+
+
+# which cells of cells.json run in which tier: (evs, in_n, cap, timeout) -> (quick stride, thorough stride); stride n = every n-th cell
+# of the list (deterministic), 0 = not in that tier. Everything listed with stride 1 is the COMPLETE cell list of that script.
+TIERS = {
+    # stdout only, no payload, no deadline
+    ('x', 0, 1, 0): (1, 1), ('1x', 0, 1, 0): (1, 1), ('2x', 0, 1, 0): (1, 1), ('11x', 0, 1, 0): (6, 1), ('3x', 0, 1, 0): (8, 1),
+    ('12x', 0, 1, 0): (32, 4), ('21x', 0, 1, 0): (45, 4), ('111x', 0, 1, 0): (0, 24), ('cx', 0, 1, 0): (3, 1), ('1cx', 0, 1, 0): (0, 2),
+    # stdin payload of 1 / 2 bytes
+    ('x', 1, 1, 0): (1, 1), ('kx', 1, 1, 0): (5, 1), ('ex', 1, 1, 0): (3, 1), ('rx', 1, 1, 0): (0, 1), ('e1x', 1, 1, 0): (16, 2), ('1ex', 1, 1, 0): (0, 4),
+    ('r1x', 1, 1, 0): (0, 4), ('ex', 2, 1, 0): (9, 1), ('ex', 2, 2, 0): (0, 2), ('rx', 2, 2, 0): (28, 3), ('rex', 2, 1, 0): (0, 3), ('rrx', 2, 1, 0): (0, 6),
+    ('rkx', 2, 1, 0): (0, 6), ('e1x', 2, 1, 0): (0, 8),
+    # deadline 2 ms
+    ('x', 0, 1, 2000): (2, 1), ('1x', 0, 1, 2000): (34, 6), ('2x', 0, 1, 2000): (0, 20), ('ex', 1, 1, 2000): (0, 12),
+}
+RUNCELLS = json.load(open(os.path.join(os.path.dirname(os.path.abspath(__file__)), 'runcells.json')))
+RUNTIERS = {('x', 0, 1): (1, 1), ('1x', 0, 1): (4, 1), ('Ax', 0, 1): (8, 2), ('2x', 0, 1): (16, 2), ('Bx', 0, 1): (0, 4), ('11x', 0, 1): (26, 6), ('1Ax', 0, 1): (16, 4),
+            ('A1x', 0, 1): (0, 4), ('AAx', 0, 1): (0, 4), ('x', 1, 1): (2, 1), ('kx', 1, 1): (8, 2), ('ex', 1, 1): (8, 2), ('e1x', 1, 1): (14, 2), ('ex', 2, 1): (0, 1), ('ex', 2, 2): (0, 2)}
 
 
 def queries(tier):
     qs = []
-    qs.append(Q('c_1x_00', '1x', '00'))
-    qs.append(Q('c_1x_03', '1x', '03'))
-    qs.append(Q('c_1x_s3', '1x', '*3'))
-    qs.append(Q('c_1x_ss', '1x', '**'))
-    qs.append(Q('c_2x_s5', '2x', '*5'))
-    qs.append(Q('c_11x_ss5', '11x', '**5'))
+    for r in CELLS:
+        stride = TIERS.get((r['evs'], r['in_n'], r['cap'], r['timeout']), (0, 0))[0 if tier == 'quick' else 1]
+        if not stride:
+            continue
+        for k, (sc, late, plan, lims, fl) in enumerate(r['cells']):
+            if k % stride:
+                continue
+            nm = '%s_%s_i%dc%d_%s_%s_%s%s' % ('d' if r['timeout'] else 'c', r['evs'], r['in_n'], r['cap'], sc, late, '.'.join(plan), '_fl%d' % fl if r['timeout'] else '')
+            qs.append(Q(nm, r['evs'], sc, late, r['tmax'], plan, lims, in_n=r['in_n'], cap=r['cap'], timeout_us=r['timeout'], fl=fl, tv=(k % (16 * stride) == 0)))
+    # blocking stdin descriptor (POSIX: write() returns when everything is in the pipe) + bounded stdout pipe: the child echoes
+    # while the parent is still writing. Script r11ex = read 1, write 1, write 1, read to EOF, exit; 3-byte payload, both pipes
+    # hold 1 byte. All-forced schedule (the child only moves when the parent blocks) and two early ones.
+    for sc, late in (('yyyyy', '11111'), ('00000', '00000'), ('12345', '00000')):
+        qs.append(Q('wb_r11ex_i3c1o1_%s_%s' % (sc, late), 'r11ex', sc, late, 34, in_n=3, cap=1, ocap=1, wblock=1, tv=True))
+    for sc, late in (('mmm', '111'), ('000', '000')):
+        qs.append(Q('wb_e1x_i2c1_%s_%s' % (sc, late), 'e1x', sc, late, 22, in_n=2, cap=1, wblock=1, tv=(sc == 'mmm')))
+    for r in RUNCELLS:
+        stride = RUNTIERS.get((r['evs'], r['in_n'], r['cap']), (0, 0))[0 if tier == 'quick' else 1]
+        if not stride:
+            continue
+        for k, (sc, plan, lims, tmax_seen) in enumerate(r['cells']):
+            if k % stride:
+                continue
+            nm = 'run_%s_i%dc%d_%s_%s' % (r['evs'], r['in_n'], r['cap'], sc, '.'.join(plan))
+            qs.append(RQ(nm, r['evs'], sc, in_n=r['in_n'], cap=r['cap'], plan=plan, lims=lims, tv=(k % (8 * stride) == 0)))
+            # the `check` argument and non-zero wait statuses: on a quarter of the cells of the one-byte script
+            if r['evs'] == '1x' and r['in_n'] == 0 and k % (8 if tier == 'quick' else 4) == 0:
+                qs.append(RQ(nm + '_st', r['evs'], sc, plan=plan, lims=lims, check=0, status0=0))
+                qs.append(RQ(nm + '_chk0', r['evs'], sc, plan=plan, lims=lims, check=1, status0=1))
+                qs.append(RQ(nm + '_chk', r['evs'], sc, plan=plan, lims=lims, check=1, status0=0))
     return qs
